@@ -20,6 +20,7 @@ import (
 	"io"
 	"net"
 	"net/netip"
+	"runtime"
 	"strconv"
 	"strings"
 	"sync"
@@ -323,6 +324,18 @@ func c08ParseOps(s string) ([]c08Op, error) {
 
 const c08Late = 150 * time.Millisecond
 
+// c08DrainPools empties the process-wide sync.Pools (two GC cycles: primary + victim cache).
+// Reason: on the pinned tree an expired entry that is looked up and then overwritten is released twice
+// (otter fires the deletion listener for the expired-Get delete task and again for the replacement), so
+// internal/cache's cacheEntryPool can hold the same *cacheEntry twice and two later Stores then share one
+// entry object (the second wipes the first: a spurious miss for an unrelated key, see docs/notes/C08.md).
+// Misses are always allowed by C08, but they make real-clock histories of unrelated parallel cases differ
+// from the model; draining the pools between cases keeps the cases independent.
+func c08DrainPools() {
+	runtime.GC()
+	runtime.GC()
+}
+
 func runCacheHist(id string, parts []string) string {
 	f := hx.Fields(parts)
 	maxttl := hx.MustAtoi(f["maxttl"])
@@ -339,6 +352,7 @@ func runCacheHist(id string, parts []string) string {
 		for attempt := 0; attempt < 2; attempt++ {
 			late := false
 			var out []string
+			c08DrainPools()
 			t0 := time.Now()
 			for i, op := range ops {
 				if d := time.Until(t0.Add(op.at)); d > 0 {
@@ -504,6 +518,7 @@ func runRouterHist(id string, parts []string) string {
 		for attempt := 0; attempt < 2; attempt++ {
 			late := false
 			var out []string
+			c08DrainPools()
 			t0 := time.Now()
 			for _, op := range ops {
 				if d := time.Until(t0.Add(op.at)); d > 0 {
